@@ -77,7 +77,7 @@ def run(tier):
     if tier == "quick":
         explore.run(spec, report, tier, 6, 300000, 600)
     else:
-        explore.run(spec, report, tier, 8, 2000000, 1800)
+        explore.run(spec, report, tier, 8, 2000000, 1200)
     e1check.confirm_all(spec, report)
     part_b = run_part_b(report, tier)
     cov_sync = dict(report.coverage)
